@@ -4,6 +4,7 @@
 import TinyHttpModel.WireSpec
 import TinyHttpModel.Lemmas.LoopA
 import TinyHttpModel.Lemmas.HeadParse
+import TinyHttpModel.Lemmas.Pipeline
 
 namespace TH.Props.C10
 open TH
@@ -110,6 +111,84 @@ theorem too_high_versions :
 theorem earlier_responses_first (fuel idx : Nat) (s : St) (bs : Bytes) (fin : EndState) (script : Script) :
     ∃ o, (runLoop fuel idx s bs fin script).out = s.out ++ o := by
   exact runLoop_out_prefix fuel idx s bs fin script
+
+/-! ### end to end: a whole pipeline -/
+
+/-- the bytes of a pipeline of heads, each rendered with its own optional whitespace -/
+def pipelineBytes (items : List (Head × List (Bytes × Bytes))) : Bytes :=
+  (items.map (fun x => Spec.renderHead x.1 x.2)).flatten
+
+/-- a request without body on a connection that stays open, in a version the server speaks -/
+def plainRequest (x : Head × List (Bytes × Bytes)) : Prop :=
+  Spec.wfHead x.1 = true ∧ (∀ o ∈ x.2, Spec.isOwsList o.1 = true ∧ Spec.isOwsList o.2 = true) ∧
+  framingOf x.1.headers = .ok ⟨.empty, none, false⟩ ∧
+  isLastRequest x.1.version x.1.headers = false ∧
+  (⟨Extracted.maxVersion.1, Extracted.maxVersion.2⟩ : Version).lt x.1.version = false
+
+/-- Pipeline theorem (C02 + C01 + C10 composed): k well-formed requests without body, for any k,
+    any heads, any optional whitespace, any application script, followed by a malformed request
+    line and arbitrary further bytes — exactly those k requests are delivered, with the heads as
+    sent, in order; then the client gets a 400 after all k answers; the connection is closed;
+    nothing of what follows is interpreted. -/
+theorem pipeline_then_bad_request_line (items : List (Head × List (Bytes × Bytes))) (bad tail : Bytes)
+    (fin : EndState) (script : Script)
+    (hgood : ∀ x ∈ items, plainRequest x)
+    (hbad : readHead (bad ++ tail) fin = .error .wrongRequestLine) :
+    let t := Conn.run (pipelineBytes items ++ (bad ++ tail)) fin script
+    t.delivered.map (fun d => (d.method, d.url, d.version, d.headers)) =
+        items.map (fun x => (x.1.method, x.1.url, x.1.version, x.1.headers)) ∧
+      t.statuses.getLast? = some 400 ∧
+      t.ending = .closed ∧
+      (∃ before, t.out = before ++ printError 400 ⟨1, 1⟩ false) := by
+  intro t
+  have hlen := pipeline_length_ge items
+  obtain ⟨s', hrun, hdel, ⟨o, hout⟩, _⟩ :=
+    runLoop_pipeline items ((pipelineBytes items ++ (bad ++ tail)).length + 1) 0 {} (bad ++ tail) fin script
+      (by simp only [pipelineBytes, List.length_append]; omega) hgood
+  obtain ⟨k, hk⟩ : ∃ k, (pipelineBytes items ++ (bad ++ tail)).length + 1 - items.length = k + 1 :=
+    ⟨(pipelineBytes items ++ (bad ++ tail)).length - items.length, by
+      simp only [pipelineBytes, List.length_append]; omega⟩
+  have ht : t = runLoop (k + 1) (0 + items.length) s' (bad ++ tail) fin script := by
+    show runLoop _ 0 {} _ fin script = _
+    rw [← hk]; exact hrun
+  obtain ⟨b1, b2, b3, b4, _⟩ := bad_request_line_outcome k (0 + items.length) s' (bad ++ tail) fin script hbad
+  rw [← ht] at b1 b2 b3 b4
+  refine ⟨?_, ?_, b3, ⟨s'.out, b4⟩⟩
+  · rw [b1, hdel]; rfl
+  · rw [b2]; simp
+
+/-- …and the same pipeline followed by the client's orderly close instead: all k requests are
+    delivered and answered (one final status each), then the server closes. -/
+theorem pipeline_then_eof (items : List (Head × List (Bytes × Bytes))) (script : Script)
+    (hgood : ∀ x ∈ items, plainRequest x)
+    (hfinal : ∀ i, i < items.length → ∀ ops, (script i).fin ≠ .writer ops) :
+    let t := Conn.run (pipelineBytes items) .eof script
+    t.delivered.map (fun d => (d.method, d.url, d.version, d.headers)) =
+        items.map (fun x => (x.1.method, x.1.url, x.1.version, x.1.headers)) ∧
+      t.ending = .closed ∧
+      t.statuses.length = items.length := by
+  intro t
+  have hlen := pipeline_length_ge items
+  obtain ⟨s', hrun, hdel, _, hst⟩ :=
+    runLoop_pipeline items ((pipelineBytes items).length + 1) 0 {} [] .eof script
+      (by simp only [pipelineBytes]; omega) hgood
+  obtain ⟨k, hk⟩ : ∃ k, (pipelineBytes items).length + 1 - items.length = k + 1 :=
+    ⟨(pipelineBytes items).length - items.length, by simp only [pipelineBytes]; omega⟩
+  have ht : t = s'.finish .closed := by
+    have := hrun
+    rw [List.append_nil, hk] at this
+    exact this
+  rw [ht]
+  refine ⟨?_, rfl, ?_⟩
+  · rw [St.finish_delivered, hdel]; rfl
+  · rw [St.finish_statuses, hst (fun i _ hi => hfinal i (by omega))]; exact Nat.zero_add _
+
+example : plainRequest (⟨Method.mk b!"GET", b!"/a", ⟨1, 1⟩, [⟨b!"Host", b!"x"⟩]⟩, [(b!" ", b!"")]) := by
+  refine ⟨by decide, ?_, by decide, by decide, by decide⟩
+  intro o ho
+  simp only [List.mem_singleton] at ho
+  subst ho
+  exact ⟨by decide, by decide⟩
 
 example : (Conn.run b!"GET /a HTTP/1.1\r\n\r\nGET /b HTTP/2.0\r\n\r\nGET /c HTTP/1.1\r\n\r\nBAD\r\n\r\nGET /d HTTP/1.1\r\n\r\n" .eof
     (fun _ => ⟨0, 0, 1, .drop, false⟩)).statuses = [500, 505, 500, 400] := by decide
